@@ -4,6 +4,11 @@ import json, os
 V = os.path.dirname(os.path.dirname(os.path.abspath(__file__)))
 
 CLAIMED = {
+ "C03": dict(level="other", tech="call-graph reachability over resolved MIR calls from all public read entry points + per-site discharge of every reachable panic/assert/allocation site by interval analysis on typed HIR (interprocedural parameter ranges, guard dominance) + loop-progress rule",
+   text="From 228 public read entry points the resolved call graph (trait calls fanned out to every impl, across the message and base crates) reaches 8,238 bodies; every MIR Assert (overflow, bounds, division), every call into the panic machinery / unwrap / panicking indexing, and every allocation-like call on those paths (947 sites) must be discharged by a closed set of local arguments (constant index, operand ranges from types and casts, for-range bounds, in-memory-size axiom, prefix-size relation, a dominating allocation guard, or a tabled one-line reason with a site count). Reaches the deep allocation and arithmetic sites that only inputs valid up to one chosen field can reach dynamically.",
+   note="panics inside trusted external code (std read_exact, from_utf8, flate2 internals, wow_srp) and stack depth are not analysed; requested sizes are bounded, not real memory use; two design-level defects are known findings, five defects were repaired by fix: commits",
+   ref="§3 C03"),
+
  "C02": dict(level="translation_validation", tech="symbolic byte accounting (size() vs writer normal forms) + abstract interpretation of header arithmetic with a piecewise-affine domain + per-path frame summaries of readers + call-graph cycle check",
    text="(1) For every container the separately generated size() formula and the bytes emitted by write_into_vec are reduced to canonical sums of guarded terms and must be identical branch by branch (1,694 containers). (2) The default write_* methods and header helpers are evaluated by an abstract interpreter whose domain is piecewise-affine in the body length B, over every B the header form can express: size field = opcode+B, header length, 2/3-byte form predicate, overflow/truncation, and the writers' own assert. (3) Every reader entry point (opcode-enum readers and expect_* helpers, 3 flavours, plain/encrypted) is summarised per path: header bytes consumed + body bytes read must equal size bytes + size field, and the body decoder must be given the same length. (4) No recursion on write paths. This covers all lengths around 0x7FFF/0xFFFF and all messages, which no test does.",
    note="trusts rustc resolution, wow_srp's header API contract (frozen), std Vec/Write; stream alignment for sequences follows by induction from the per-message obligations; four genuine defects are known findings, two were repaired by fix: commits",
